@@ -68,6 +68,34 @@ func (e *Enc) entryKey(key, sortOfKey string) T {
 	return t
 }
 
+// markRefKey: the entry value of a heap key that holds references (pointers, maps, slice bases,
+// interface data words) only holds references to objects that existed on entry ("old"); objects
+// allocated by the function under verification are not old (newAllocRef). This is what makes a
+// fresh allocation distinct from everything reachable in the entry heap.
+func (e *Enc) markRefKey(key string, lf leaf) {
+	if lf.kind != "ref" && lf.kind != "base" && lf.kind != "data" {
+		return
+	}
+	if strings.HasPrefix(key, "c:") || strings.HasPrefix(key, "ghost:") || e.s.declSet["oldax:"+key] {
+		return
+	}
+	srt, ok := e.keySorts[key]
+	if !ok {
+		return
+	}
+	e.s.declSet["oldax:"+key] = true
+	h := e.entryKey(key, srt)
+	old := e.s.DeclareFun("isold", []string{SInt}, SBool)
+	switch srt {
+	case SInt:
+		e.s.decls = append(e.s.decls, fmt.Sprintf("(assert (%s %s))", old, h.S))
+	case arrSort(SInt, SInt):
+		e.s.decls = append(e.s.decls, fmt.Sprintf("(assert (forall ((|ox| Int)) (! (%s (select %s |ox|)) :pattern ((select %s |ox|)))))", old, h.S, h.S))
+	case arrSort(SInt, arrSort(SInt, SInt)):
+		e.s.decls = append(e.s.decls, fmt.Sprintf("(assert (forall ((|ox| Int) (|oy| Int)) (! (%s (select (select %s |ox|) |oy|)) :pattern ((select (select %s |ox|) |oy|)))))", old, h.S, h.S))
+	}
+}
+
 // mergeStates joins the states of incoming edges (conds are the edge conditions).
 func (e *Enc) mergeStates(conds []T, sts []*State, label string) *State {
 	if len(sts) == 1 {
@@ -227,6 +255,7 @@ func (e *Enc) load(st *State, a Addr, t types.Type) Val {
 	for i, lf := range ls {
 		key := l.key + lf.path
 		cur := e.get(st, key, wrapSort(len(l.idx), lf.sort))
+		e.markRefKey(key, lf)
 		for _, ix := range l.idx {
 			cur = Select(cur, ix)
 		}
